@@ -71,6 +71,14 @@ REG["C20"] = dict(
     assumptions=["contract stub for github.com/pierrec/lz4/v4.UncompressBlock (see harness c20_lz4.go)"],
 )
 
+REG["C13"] = dict(
+    harnesses=[H(P, "VerifH_C13_crcDetects", max_seconds={"quick": 300, "thorough": 1800}), H(P, "VerifH_C13_lazyDictionary"), H(P, "VerifH_C13_crcZeroHole")],
+    explanation="(K1) writerBuffers.crc32 (writer) against FilePages.readPage (reader) on a symbolic body and an arbitrary non-zero flip mask: the solver shows that the branch 'stored checksum == checksum of the altered bytes' is infeasible, so readPage returns an error wrapping ErrCorrupted and no data, while the unaltered body is accepted (CRC-32 modelled by its bitwise definition). (K2) the lazy dictionary load used after a seek (FilePages.readDictionary) with the Thrift header decode and the dictionary decoder replaced by recording stubs: an altered body is never handed to the decoder and an ErrCorrupted error is returned; counterexamples are re-enacted natively on a real file through SeekToRow. (K3) the complement of K1's precondition: a body whose CRC-32 is 0 is indistinguishable from 'no checksum' in this implementation and its corruption is accepted; this is an open known finding.",
+    bounds={"quick": "K1: body of 1..3 bytes split over the level/value buffers, any non-zero flip mask; K2: body of 1..2 bytes; K3: 4-byte body", "thorough": "K1: 1..4 bytes; K2: 1..3 bytes"},
+    outside=["decompressor behaviour on corrupted input", "encrypted pages (C18)", "bodies longer than the bound (CRC-32 detects all bursts <= 32 bits by construction, not re-proved here)"],
+    assumptions=["hash/crc32 is modelled by the bitwise reflected CRC-32 definition (poly from the table)", "K2: stubs for thrift.Decoder.Decode (yields the stored page header) and Column.decodeDictionary (recorder)"],
+)
+
 LEVEL_TEXT = "bounded symbolic execution of the real functions (go/ssa of the current /repo tree) with an SMT solver deciding every assertion for all inputs inside the stated bounds; counterexamples are replayed against the natively compiled code before being reported"
 
 def main():
